@@ -123,6 +123,27 @@ def _search_loop(loop: ast.For):
     return None
 
 
+def _search_assign_loop(loop: ast.For):
+    """(filters, name, expression) when the loop is `[if g: continue]* if c: name = e; break`: the first match is kept in `name`."""
+    if loop.orelse:
+        return None
+    ifs, body = [], list(loop.body)
+    while len(body) > 1:
+        g = body[0]
+        if not (isinstance(g, ast.If) and not g.orelse and len(g.body) == 1 and isinstance(g.body[0], ast.Continue)):
+            return None
+        ifs.append(ast.UnaryOp(op=ast.Not(), operand=g.test))
+        body = body[1:]
+    if len(body) != 1 or not isinstance(body[0], ast.If) or body[0].orelse:
+        return None
+    ifs.append(body[0].test)
+    inner = body[0].body
+    if len(inner) == 2 and isinstance(inner[0], ast.Assign) and len(inner[0].targets) == 1 and isinstance(inner[0].targets[0], ast.Name) \
+            and isinstance(inner[1], ast.Break) and not _mentions(ast.Module(body=[ast.Expr(value=t) for t in ifs], type_ignores=[]), inner[0].targets[0].id):
+        return ifs, inner[0].targets[0].id, inner[0].value
+    return None
+
+
 def _empty_container(stmt):
     """('dict' | 'list', name) when stmt is `name = {}` / `name = []` / `name = dict()` / `name = list()` (also annotated)."""
     if isinstance(stmt, ast.Assign) and len(stmt.targets) == 1 and isinstance(stmt.targets[0], ast.Name):
@@ -441,6 +462,20 @@ class StmtMixin:
                     if r is not _FELL_THROUGH:
                         raise _Return(r)
                     self.exec_block(node.orelse, env, path)
+                    return
+            sa = _search_assign_loop(node)
+            if sa is not None:
+                # `... if c: name = e; break`: name keeps the first match, or its value from before the loop
+                from .expr import FilteredGen
+                from .builtins_model import m_next
+                gen = ast.GeneratorExp(elt=sa[2], generators=[ast.comprehension(target=node.target, iter=node.iter, ifs=sa[0], is_async=0)])
+                ast.copy_location(gen, node)
+                ast.fix_missing_locations(gen)
+                fg = self.eval(gen, env, path)
+                if isinstance(fg, FilteredGen):
+                    r = m_next(self, path, [fg, _FELL_THROUGH], {})
+                    if r is not _FELL_THROUGH:
+                        env.set(sa[1], r)
                     return
         it = self.eval(node.iter, env, path)
         src = self.iter_seq(it, path, for_loop=True)
